@@ -850,6 +850,12 @@ func (n *AlertNode) restoreEvent(id string) (alert.Level, time.Time) {
 			if err := n.et.tm.AlertService.UpdateEvent(n.anonTopic, topicState); err != nil {
 				n.diag.Error("failed to update topic event state", err, keyvalue.KV("topic", n.topic), keyvalue.KV("event", id))
 			}
+		} else if anonFound && n.hasTopic() {
+			// Only the anonymous topic knows the event, e.g. the process died
+			// between the updates of the two topics: bring the topic in step.
+			if err := n.et.tm.AlertService.UpdateEvent(n.topic, anonTopicState); err != nil {
+				n.diag.Error("failed to update topic event state", err, keyvalue.KV("topic", n.topic), keyvalue.KV("event", id))
+			}
 		} // else nothing was found, nothing to do
 	}
 	if anonFound {
